@@ -87,6 +87,43 @@ func tkForeign(origin string, cc *vgirpc.CallContext) {
 
 var tkSchema = arrow.NewSchema([]arrow.Field{{Name: "value", Type: arrow.PrimitiveTypes.Int64}}, nil)
 
+var tkSchema32 = arrow.NewSchema([]arrow.Field{{Name: "value", Type: arrow.PrimitiveTypes.Int32}}, nil)
+
+// tkSchemaTag names the two input schemas the family uses.
+func tkSchemaTag(s *arrow.Schema) string {
+	switch {
+	case s == nil:
+		return "-"
+	case s.Equal(tkSchema):
+		return "i64"
+	case s.Equal(tkSchema32):
+		return "i32"
+	}
+	return "other"
+}
+
+func tkSchemaTagIPC(b []byte) string {
+	switch {
+	case len(b) == 0:
+		return "-"
+	case bytes.Equal(b, vgirpc.VerifC12SerializeSchema(tkSchema)):
+		return "i64"
+	case bytes.Equal(b, vgirpc.VerifC12SerializeSchema(tkSchema32)):
+		return "i32"
+	}
+	return "other"
+}
+
+func tkSchemaOfTag(t string) []byte {
+	switch t {
+	case "i64":
+		return vgirpc.VerifC12SerializeSchema(tkSchema)
+	case "i32":
+		return vgirpc.VerifC12SerializeSchema(tkSchema32)
+	}
+	return nil
+}
+
 func tkOneRow(v int64) arrow.Array {
 	b := array.NewInt64Builder(memory.NewGoAllocator())
 	defer b.Release()
@@ -107,7 +144,7 @@ func tkProduce(origin string, count *int, limit int, out *vgirpc.OutputCollector
 }
 
 func tkExchange(origin string, count *int, in arrow.RecordBatch, out *vgirpc.OutputCollector, cc *vgirpc.CallContext) error {
-	tkEvent("exchange")
+	tkEvent("exchange:" + tkSchemaTag(in.Schema()))
 	tkForeign(origin, cc)
 	*count++
 	col := tkOneRow(int64(*count))
@@ -182,19 +219,21 @@ func tkStateDesc(st interface{}) (kind string, count, limit int) {
 }
 
 // The registered method family (the same on every instance): name, type, state kind minted.
-type tkMethod struct{ name, typ, kind string }
+// in: static exchange methods — the registered input schema; dynamic methods — the input schema
+// their /init declares at run time ("-" = none).
+type tkMethod struct{ name, typ, kind, in string }
 
 var tkMethods = []tkMethod{
-	{"prod", "p", "P"}, {"prod2", "p", "P"}, {"pb", "p", "B"},
-	{"exch", "e", "E"}, {"exch2", "e", "E"}, {"exb", "e", "B"},
-	{"dynp", "d", "P"}, {"dyne", "d", "E"}, {"dynb", "d", "B"},
-	{"who", "u", "N"}, {"open", "u", "N"}, {"close", "u", "N"},
+	{"prod", "p", "P", "-"}, {"prod2", "p", "P", "-"}, {"pb", "p", "B", "-"},
+	{"exch", "e", "E", "i64"}, {"exch2", "e", "E", "i64"}, {"exb", "e", "B", "i64"},
+	{"dynp", "d", "P", "-"}, {"dyne", "d", "E", "i64"}, {"dynb", "d", "B", "i64"}, {"dynn", "d", "E", "-"},
+	{"who", "u", "N", "-"}, {"open", "u", "N", "-"}, {"close", "u", "N", "-"},
 }
 
 func tkMethodsArg() string {
 	var p []string
 	for _, m := range tkMethods {
-		p = append(p, m.name+":"+m.typ+":"+m.kind)
+		p = append(p, m.name+":"+m.typ+":"+m.kind+":"+m.in)
 	}
 	return strings.Join(p, ",")
 }
@@ -275,6 +314,7 @@ type tkSlot struct {
 	method string
 	state  interface{}
 	schema []byte
+	insch  []byte // InputSchemaIPC of a call token
 	stream string
 	server string
 	sid    []byte
@@ -291,7 +331,9 @@ type tkWorld struct {
 	streams  map[string]bool
 	sigBody  map[string][]byte // per instance: first bad-signature response of the case (uniformity oracle)
 	sigDesc  map[string]string
-	lastPair string // outcome of the previous cont line (for pair=1)
+	lastPair string              // outcome of the previous cont line (for pair=1)
+	lastSeen string              // what the exchange handler received on the previous cont line
+	warm     map[string][]string // instance|callID -> identities that legitimately warmed a cache entry there
 }
 
 type tkHook struct{}
@@ -328,8 +370,11 @@ func (w *tkWorld) newInst(name string, f map[string]string) *tkInst {
 		m := m
 		handler := func(_ context.Context, cc *vgirpc.CallContext, p tkParams) (*vgirpc.StreamResult, error) {
 			tkEvent("init:" + m.name)
-			return &vgirpc.StreamResult{OutputSchema: tkSchema, InputSchema: tkSchema,
-				State: tkNewState(m.kind, m.name, 0, int(p.Value))}, nil
+			res := &vgirpc.StreamResult{OutputSchema: tkSchema, State: tkNewState(m.kind, m.name, 0, int(p.Value))}
+			if m.in == "i64" {
+				res.InputSchema = tkSchema
+			}
+			return res, nil
 		}
 		switch m.typ {
 		case "p":
@@ -419,18 +464,27 @@ type tkResp struct {
 	hasExc  bool
 }
 
-func tkIPC(meta arrow.Metadata) []byte {
+func tkIPC(meta arrow.Metadata, in string) []byte {
+	schema := tkSchema
 	col := tkOneRow(7)
+	if in == "i32" {
+		schema = tkSchema32
+		col.Release()
+		b := array.NewInt32Builder(memory.NewGoAllocator())
+		b.Append(7)
+		col = b.NewArray()
+		b.Release()
+	}
 	defer col.Release()
 	var rec arrow.RecordBatch
 	if meta.Len() > 0 {
-		rec = array.NewRecordBatchWithMetadata(tkSchema, []arrow.Array{col}, 1, meta)
+		rec = array.NewRecordBatchWithMetadata(schema, []arrow.Array{col}, 1, meta)
 	} else {
-		rec = array.NewRecordBatch(tkSchema, []arrow.Array{col}, 1)
+		rec = array.NewRecordBatch(schema, []arrow.Array{col}, 1)
 	}
 	defer rec.Release()
 	var buf bytes.Buffer
-	wr := ipc.NewWriter(&buf, ipc.WithSchema(tkSchema))
+	wr := ipc.NewWriter(&buf, ipc.WithSchema(schema))
 	if err := wr.Write(rec); err != nil {
 		panic(err)
 	}
@@ -736,7 +790,7 @@ func tkFields(words []string) map[string]string {
 func tkExecProp(prop string) func(c *Case) {
 	return func(c *Case) {
 		w := &tkWorld{c: c, prop: prop, insts: map[string]*tkInst{}, slots: map[string]*tkSlot{}, streams: map[string]bool{},
-			sigBody: map[string][]byte{}, sigDesc: map[string]string{}}
+			sigBody: map[string][]byte{}, sigDesc: map[string]string{}, warm: map[string][]string{}}
 		tkCur = w
 		defer func() { tkCur = nil }()
 		for _, l := range c.Lines {
@@ -789,8 +843,8 @@ func (w *tkWorld) sealLine(name string, s *tkSlot) string {
 		return fmt.Sprintf("seal cursor %s %s tok=%s created=%d callid=%s method=%s skind=%s count=%d limit=%d",
 			s.inst, s.ident, X(s.tok), s.vcreat, XS(s.callID), XS(s.method), k, cnt, lim)
 	case "call":
-		return fmt.Sprintf("seal call %s %s tok=%s created=%d callid=%s schema=%s streamid=%s",
-			s.inst, s.ident, X(s.tok), s.vcreat, XS(s.callID), X(s.schema), XS(s.stream))
+		return fmt.Sprintf("seal call %s %s tok=%s created=%d callid=%s schema=%s streamid=%s insch=%s",
+			s.inst, s.ident, X(s.tok), s.vcreat, XS(s.callID), X(s.schema), XS(s.stream), tkSchemaTagIPC(s.insch))
 	}
 	return fmt.Sprintf("seal session %s %s tok=%s serverid=%s sid=%s", s.inst, s.ident, X(s.tok), XS(s.server), X(s.sid))
 }
@@ -805,7 +859,7 @@ func (w *tkWorld) reseal(s *tkSlot, realCreated int64) {
 	case "cursor":
 		tok, err = in.h.VerifC12SealCursor(realCreated, s.callID, s.method, s.state, a)
 	case "call":
-		tok, err = in.h.VerifC12SealCall(realCreated, s.callID, s.schema, s.stream, a)
+		tok, err = in.h.VerifC15SealCall(realCreated, s.callID, s.schema, s.insch, s.stream, a)
 	default:
 		return
 	}
@@ -897,17 +951,21 @@ func (w *tkWorld) opInit(l string, f []string, kv map[string]string) {
 		w.oracle("*", "minted-cursor-does-not-open", fmt.Sprintf("%q: cursor minted for %s does not open for it: %v", l, ident, err))
 		return
 	}
-	kcr, kcid, ksch, kstream, err := in.h.VerifC12PeekCall(call, tkAuthOf(ident))
+	kcr, kcid, ksch, kin, kstream, err := in.h.VerifC15PeekCall(call, tkAuthOf(ident))
 	if err != nil {
 		c.Out(base, "err:minted-call-does-not-open")
 		w.oracle("*", "minted-call-does-not-open", fmt.Sprintf("%q: call token minted for %s does not open for it: %v", l, ident, err))
 		return
 	}
-	ks := &tkSlot{kind: "call", inst: in.name, ident: ident, tok: call, vcreat: kcr + w.delta, callID: kcid, schema: ksch, stream: kstream}
+	ks := &tkSlot{kind: "call", inst: in.name, ident: ident, tok: call, vcreat: kcr + w.delta, callID: kcid, schema: ksch, insch: kin, stream: kstream}
+	if want := tkMethodIn(method); tkSchemaTagIPC(kin) != want {
+		w.oracle("C15", "call-token-input-schema-wrong", fmt.Sprintf("%q: call token of %s carries input schema %s, the stream declared %s", l, method, tkSchemaTagIPC(kin), want))
+	}
 	if n := kv["call"]; n != "" && n != "-" {
 		w.slots[n] = ks
 	}
 	w.streams[kstream] = true
+	w.warm[in.name+"|"+kcid] = append(w.warm[in.name+"|"+kcid], ident)
 	w.mintBinding(in, "cursor", ident, cur, l)
 	w.mintBinding(in, "call", ident, call, l)
 	if cs.callID != kcid {
@@ -945,12 +1003,16 @@ func (w *tkWorld) opCont(l string, f []string, kv map[string]string) {
 	if cancel {
 		keys, vals = append(keys, vgirpc.MetaCancel), append(vals, "true")
 	}
-	body := tkIPC(arrow.NewMetadata(keys, vals))
+	inKind := kv["in"]
+	if inKind != "i32" {
+		inKind = "i64"
+	}
+	body := tkIPC(arrow.NewMetadata(keys, vals), inKind)
 
 	// was the call-state cache going to answer? (observed, before the request, for the oracles only)
 	cacheHit := false
 	if curBase != nil && curBase.kind == "cursor" {
-		want := curBase.callID + "\x00" + vgirpc.VerifC12CacheIdentity(tkAuthOf(ident))
+		want := curBase.callID + "\x00" + tkSpecIdentKey(ident) // documented key layout, restated (not the hooked function)
 		for _, k := range in.h.VerifC15CacheKeys() {
 			if k == want {
 				cacheHit = true
@@ -992,6 +1054,7 @@ func (w *tkWorld) opCont(l string, f []string, kv map[string]string) {
 	obs := fmt.Sprintf("%s %s ev=%s next=%s", tkStatus(r), tkDecision(r), events, next)
 	ml := fmt.Sprintf("cont %s %s %s cur=%s call=%s cancel=%s sess=%s now=%d", f[1], ident, method,
 		tkOpt(cur, curPresent), tkOpt(call, callPresent), map[bool]string{true: "1", false: "0"}[cancel], tkOpt(sess, sessPresent), now)
+	ml += " in=" + inKind
 	if ns != nil {
 		ml += fmt.Sprintf(" ncreated=%d new=%s", ns.vcreat, X(newTok))
 	}
@@ -999,14 +1062,41 @@ func (w *tkWorld) opCont(l string, f []string, kv map[string]string) {
 	c.Stat("cont-" + strings.SplitN(cls, ":", 2)[0])
 
 	accepted := r.panicV == nil && !r.hasExc && r.status == 200
+	// C13, history independence at the cache: a caller whose own call token was not presented can only
+	// be answered from an entry that the SAME caller warmed on this instance
+	if accepted && curBase != nil && curBase.kind == "cursor" && !curAlt && tkSameIdent(curBase.ident, ident) {
+		ownCall := callBase != nil && callBase.kind == "call" && tkEnvelopeEqual(call, callBase) && tkSameIdent(callBase.ident, ident) && callBase.callID == curBase.callID
+		if !ownCall {
+			mine := false
+			for _, who := range w.warm[in.name+"|"+curBase.callID] {
+				if tkSameIdent(who, ident) {
+					mine = true
+				}
+			}
+			if !mine {
+				w.oracle("C13", "cache-entry-served-to-other-identity", fmt.Sprintf("%q: %s was accepted without its own call token although only %v ever resolved call %s on %s", l, ident, w.warm[in.name+"|"+curBase.callID], curBase.callID, in.name))
+			}
+		}
+	}
+	if accepted && curBase != nil && curBase.kind == "cursor" {
+		w.warm[in.name+"|"+curBase.callID] = append(w.warm[in.name+"|"+curBase.callID], ident)
+	}
 	w.contOracles(l, in, ident, method, r, cls, accepted, cacheHit, cur, curBase, curAlt, curPresent, call, callBase, callAlt, callPresent, now)
+	seen := ""
+	for _, e := range w.events {
+		if strings.HasPrefix(e, "exchange:") {
+			seen = e
+		}
+	}
 	if kv["pair"] == "1" {
 		dec := tkStatus(r) + " " + tkDecision(r)
 		if w.lastPair != "" && w.lastPair != dec {
 			w.oracle("C15", "cache-changes-outcome", fmt.Sprintf("%q: this instance answered %q, the cache-less instance sharing the key answered %q to the same request", l, dec, w.lastPair))
+		} else if w.lastPair != "" && w.lastSeen != seen {
+			w.oracle("C15", "cache-changes-handler-input", fmt.Sprintf("%q: the handler on this instance received %q, on the cache-less instance sharing the key %q, for the same request", l, seen, w.lastSeen))
 		}
 	}
-	w.lastPair = tkStatus(r) + " " + tkDecision(r)
+	w.lastPair, w.lastSeen = tkStatus(r)+" "+tkDecision(r), seen
 }
 
 // tkSpecNormKey restates the documented key normalisation independently of the code under test
@@ -1225,7 +1315,8 @@ func (w *tkWorld) opMint(l string, f []string, kv map[string]string) {
 		}
 		s.stream = UnXS(st)
 		w.streams[s.stream] = true
-		s.tok, err = in.h.VerifC12SealCall(realCreated, callID, s.schema, s.stream, a)
+		s.insch = tkSchemaOfTag(kv["insch"])
+		s.tok, err = in.h.VerifC15SealCall(realCreated, callID, s.schema, s.insch, s.stream, a)
 	case "session":
 		s.server = in.serverID
 		if v := kv["serverid"]; v != "self" && v != "" {
@@ -1416,4 +1507,24 @@ func tkRegistered(method string) bool {
 		}
 	}
 	return false
+}
+
+// tkMethodIn: the input-schema tag a dynamic method's /init puts into the call token ("-" for the others).
+func tkMethodIn(method string) string {
+	for _, m := range tkMethods {
+		if m.name == method && m.typ == "d" {
+			return m.in
+		}
+	}
+	return "-"
+}
+
+// tkSpecIdentKey restates the documented identity half of the call-state cache key
+// ("\x00anonymous" | domain + "\x00" + principal) independently of the code under test.
+func tkSpecIdentKey(id string) string {
+	a := tkAuthOf(id)
+	if !a.Authenticated {
+		return "\x00anonymous"
+	}
+	return a.Domain + "\x00" + a.Principal
 }
